@@ -43,17 +43,28 @@ Fits(c, d) == IF c.via = "sql" /\ c.wrap # "ANY" THEN c.wrap = d.g.t ELSE TRUE
 RECURSIVE Match(_, _, _)
 RECURSIVE MatchKids(_, _, _, _)
 MatchKids(ks, k, s, p) == IF p = 0 \/ k > Len(ks) THEN p ELSE MatchKids(ks, k + 1, s, Match(ks[k], s, p))
+\* (the SRID is compared on the outermost geometry, position 1, only: C03 leaves the SRIDs of members open, WKB!StripMS)
 Match(g, s, p) ==
   IF p = 0 \/ p > Len(s) THEN 0
-  ELSE IF s[p].t # g.t \/ s[p].l # g.l \/ s[p].srid # g.srid THEN 0
+  ELSE IF s[p].t # g.t \/ s[p].l # g.l \/ (p = 1 /\ s[p].srid # g.srid) THEN 0
   ELSE IF g.t = "GC" THEN (IF s[p].n # Len(g.body) THEN 0 ELSE MatchKids(g.body, 1, s, p + 1))
-  ELSE IF s[p].n = 0 /\ s[p].body = g.body THEN p + 1 ELSE 0
+  ELSE IF s[p].n = 0 /\ NoSrid(s[p]).body = NoSrid(g).body THEN p + 1 ELSE 0
 \* Evaluating the reference decoder costs TLC time quadratic in the nesting depth of the input (its evaluation context
 \* grows with the depth of recursion).  An input the generator marks "noref" (collection headers nested thousands deep) is
 \* not decoded here: for it only what the property says of EVERY byte string is demanded - no panic, no hang, no crash,
 \* a well-formed result that survives re-encoding - and the memory bound with the largest count (64) that the property's
 \* domain admits when a limit is off.
 NoRef(c) == "noref" \in DOMAIN c
+\* An input of the seeded generators of tools/props/c04.py (random bytes, splices, flips, forged words, hex strings, nests)
+\* carries SEVERAL defects.  The reference decoder meets them in the order of one implementation; a decoder that validates
+\* in another order legitimately reports another of the errors the input deserves.  That an over-limit count is answered
+\* with geometry-too-large (and no other error) is therefore demanded of the single-defect inputs of WKBMutModel only;
+\* that such an input is not ACCEPTED is demanded of every input.
+Multi(c) == "multi" \in DOMAIN c
+\* c.nest = number of collection headers nested around the innermost member (tools/props/c04.py nests()).  "An error" is a
+\* permitted answer to any byte string, and a cap on the nesting depth is ordinary hardening: an input nested deeper than
+\* 32 levels need not be accepted (if it is accepted, the result is judged like any other).
+Nested(c) == "nest" \in DOMAIN c /\ c.nest > 32
 Clause(r) ==
   LET c == r.case
       nb == NoBytes(c)
@@ -65,15 +76,16 @@ Clause(r) ==
     [] r.errclass = "panic" -> "panic"
     [] NoRef(c) /\ r.alloc > AllocBound(Len(b), c.lim, 64) -> "allocation-unbounded"
     [] ~NoRef(c) /\ ~nb /\ ~d.ok /\ d.err = "toolarge" /\ r.ok -> "accepts-invalid:toolarge"
-    [] ~NoRef(c) /\ ~nb /\ ~d.ok /\ d.err = "toolarge" /\ r.errclass # "toolarge" -> "limit-not-reported"
+    [] ~NoRef(c) /\ ~Multi(c) /\ ~nb /\ ~d.ok /\ d.err = "toolarge" /\ r.errclass # "toolarge" -> "limit-not-reported"
     [] ~NoRef(c) /\ r.alloc > (IF nb THEN AllocBound(Len(c.hexcodes), c.lim, 0) ELSE AllocBound(Len(b), c.lim, d.mx)) -> "allocation-unbounded"
     [] r.ok /\ \E k \in DOMAIN r.wf : ~(r.wf[k].k \in FG!Kinds /\ FG!WellFormedObj(r.wf[k])) -> "ill-formed-result"
-    [] r.ok /\ ~(r.re = "ok" /\ r.d2 = r.d1) -> "not-canonical"
+    \* (d1m, d2m: digests of the decoded tree and of the tree decoded from its re-encoding, members' SRIDs left out)
+    [] r.ok /\ ~(r.re = "ok" /\ r.d2m = r.d1m) -> "not-canonical"
     [] NoRef(c) -> "ok"
     \* (a wrapper that reports success and holds no geometry - errclass "null" - counts as a refusal)
-    [] std /\ Fits(c, d) /\ ~r.ok -> "rejects-valid:" \o r.errclass
-    [] std /\ r.ok /\ (IF r.deep THEN Match(d.g, r.pre, 1) # Len(r.pre) + 1 ELSE r.g # d.g) -> "decoded-geometry-differs"
-    [] std /\ c.via = "" /\ r.consumed # d.pos -> "bytes-consumed"
+    [] std /\ Fits(c, d) /\ ~r.ok /\ ~Nested(c) -> "rejects-valid:" \o r.errclass
+    [] std /\ r.ok /\ (IF r.deep THEN Match(d.g, r.pre, 1) # Len(r.pre) + 1 ELSE StripMS(r.g) # StripMS(d.g)) -> "decoded-geometry-differs"
+    [] std /\ r.ok /\ c.via = "" /\ r.consumed # d.pos -> "bytes-consumed"
     [] OTHER -> "ok"
 \* informational (not a verdict): disagreement with the reference decoder on non-standard input
 Differs(r) == LET c == r.case  d == Decode(InBytes(c), c.flavor, c.nan, c.lim) IN r.ev = "ok" /\ (d.ok # r.ok \/ (d.ok /\ r.ok /\ r.g # d.g))
